@@ -304,3 +304,78 @@ func (m *docMut) writeUnknown(sb *strings.Builder, sep func()) {
 	}
 	m.done = true
 }
+
+// Tokens splits a valid JSON text into its tokens (white space dropped).
+func Tokens(doc []byte) [][]byte {
+	var toks [][]byte
+	for i := 0; i < len(doc); {
+		c := doc[i]
+		switch {
+		case c == ' ' || c == '\t' || c == '\n' || c == '\r':
+			i++
+		case c == '"':
+			j := i + 1
+			for j < len(doc) && doc[j] != '"' {
+				if doc[j] == '\\' {
+					j++
+				}
+				j++
+			}
+			if j >= len(doc) {
+				j = len(doc) - 1
+			}
+			toks = append(toks, doc[i:j+1])
+			i = j + 1
+		case strings.IndexByte("{}[],:", c) >= 0:
+			toks = append(toks, doc[i:i+1])
+			i++
+		default:
+			j := i
+			for j < len(doc) && strings.IndexByte("{}[],: \t\r\n\"", doc[j]) < 0 {
+				j++
+			}
+			toks = append(toks, doc[i:j])
+			i = j
+		}
+	}
+	return toks
+}
+
+// tokenSubstitutes are the tokens (and small token groups) a token is replaced with.
+var tokenSubstitutes = []string{`1`, `"s"`, `null`, `true`, `[`, `]`, `{`, `}`, `,`, `:`, `[1]`, `{"k":1}`, `-`, `""`}
+
+// TokenMutants returns the token-level mutants of a valid text: every token deleted, doubled,
+// swapped with its successor and replaced by every substitute. These are the ill-formed texts a
+// tokenising validator gets wrong when one of its per-position checks is missing (a value in key
+// position, a missing colon, a doubled comma ...); most are invalid, a few are valid again.
+func TokenMutants(doc []byte) [][]byte {
+	toks := Tokens(doc)
+	join := func(ts [][]byte) []byte {
+		var b []byte
+		for _, t := range ts {
+			b = append(b, t...)
+		}
+		return b
+	}
+	var out [][]byte
+	for i := range toks {
+		del := append(append([][]byte{}, toks[:i]...), toks[i+1:]...)
+		out = append(out, join(del))
+		dbl := append(append(append([][]byte{}, toks[:i+1]...), toks[i]), toks[i+1:]...)
+		out = append(out, join(dbl))
+		if i+1 < len(toks) {
+			sw := append([][]byte{}, toks...)
+			sw[i], sw[i+1] = sw[i+1], sw[i]
+			out = append(out, join(sw))
+		}
+		for _, s := range tokenSubstitutes {
+			if string(toks[i]) == s {
+				continue
+			}
+			rp := append([][]byte{}, toks...)
+			rp[i] = []byte(s)
+			out = append(out, join(rp))
+		}
+	}
+	return out
+}
